@@ -62,12 +62,16 @@ var c12Times = []string{"2014-04-26 17:24:37.3186369", "May 8, 2009 5:57:51 PM",
 
 var c12Docs = []string{"<a id='7'><b>x</b><b>y</b></a>", "<a><b><c>deep</c></b>tail</a>", "<?xml version=\"1.0\"?><r><i k=\"v\">1</i></r>", "<a><b>unclosed", "plain text", ""}
 
-var c12Lines = []string{"abc 12 3.5 true end", "  spaced   7 1e3 false ", "héllo 42 x yes", "10.1.2.3 user GET /x 200", "ab-12", "12", ""}
+var c12Lines = []string{"abc 12 3.5 true end", "  spaced   7 1e3 false ", "héllo 42 x yes", "10.1.2.3 user GET /x 200", "ab-12", "12", "",
+	// white space at the edges of the subject (the pattern sees the subject as it is; trim_space is about the captures)
+	" 42 ", "42\n", " abc 7", "\tabc 12\t", "abc 12 "}
 
 var c12Defs = [][2]string{{"p1", "[a-z]+"}, {"p2", "\\d+"}, {"p3", "%{p1}-%{p2}"}, {"p1", "[a-zé]+"}, {"p4", "%{p3}|%{WORD}"}, {"p2", "[0-9.e]+"}, {"WORD", "[a-c]+"}, {"p5", "%{nosuch}"},
 	{"p1", "\\d+"}, {"p2", "[a-z]+"}, {"p1", "[a-z]+"}, {"p2", "\\d+"}, {"p1", "\\S+"}, {"p2", "\\S+"}}
 var c12Groks = []string{"%{p1:w1} %{p2:n1:int}", "%{WORD:w1} %{INT:n1:int} %{NUMBER:x1:float} %{WORD:b1:bool}", "%{p3:both}", "%{p1:w1:str}\\s+%{p2:x1:float}",
-	"%{NOTSPACE:w1} %{NOTSPACE:n1:int}", "%{p4:any}", "%{IP:ip} %{WORD:u}", "%{GREEDYDATA:all}", "%{p2:n1:bool}", "%{WORD:message}", "%{nosuch:z}", "(?P<raw>\\d+)", "%{p5:z}"}
+	"%{NOTSPACE:w1} %{NOTSPACE:n1:int}", "%{p4:any}", "%{IP:ip} %{WORD:u}", "%{GREEDYDATA:all}", "%{p2:n1:bool}", "%{WORD:message}", "%{nosuch:z}", "(?P<raw>\\d+)", "%{p5:z}",
+	// anchored patterns and explicit white space at the edges
+	"^%{INT:n1:int}$", "^\\s%{WORD:w1} %{INT:n1:int}", "^%{WORD:w1} %{INT:n1:int}$", "%{WORD:w1} %{INT:n1:int}\\s$", "^\\s*%{NOTSPACE:w1}\\s+%{GREEDYDATA:all}$", "\\A%{INT:n1}\\z"}
 
 // typed-captures (exhaustive): two grok calls in one script whose patterns
 // differ ONLY in the type annotation of the capture (none, str, string, int,
